@@ -124,7 +124,7 @@ def classify(clause, key, case, detail):
         return None
     # neutraliser: move the marker away from the start of the line, keeping everything else
     neutral = [('w ' + l.lstrip(' ')) if trig.match(l) else l for l in lines]
-    if inert.paragraph_reason(neutral) is None and passes(neutral, case.get('form', 'str'), case.get('prior', 'none')):
+    if inert.paragraph_reason(neutral, setext=case.get('prior') != 'setext-headings-off') is None and passes(neutral, case.get('form', 'str'), case.get('prior', 'none')):
         return 'C14-unicode-whitespace'
     return None
 
